@@ -375,6 +375,9 @@ fn cheap_to_evaluate(node: &Node, row: i32, column: i32) -> Result<(), &'static 
                 }
             }
             Node::LambdaDefKind { .. } | Node::LambdaCallKind { .. } => verdict = Err("lambda"),
+            // `A1 : XFD1048576`, `A1:INDEX(..)`: the operator builds a range of any size at run
+            // time (17 thousand million cells materialised as an array exhaust the memory)
+            Node::OpRangeKind { .. } => verdict = Err("range-operator"),
             _ => {}
         }
     });
@@ -1146,7 +1149,7 @@ pub fn run(ctx: &Ctx) {
          format parser produced at least one non-error section); distinct by target + configuration + text.",
     );
     ctx.assume("generated inputs are bounded in length (<= 700 chars for parse, <= 30 for the cursor enumeration); deep nesting is probed separately by the `depth` campaign (6 nesting shapes x depths 100..100000, each parsed in a child process with the platform's default main-thread stack)");
-    ctx.assume("evaluation cost: a stored formula containing a function whose cost is governed by a numeric argument (SEQUENCE, RANDARRAY, MAKEARRAY, EXPAND, MUNIT, WRAPROWS/COLS, FACT*, COMBIN*, PERMUT*, BESSEL*, SERIESSUM, MULTINOMIAL, BASE, ROMAN, TEXTJOIN), a LAMBDA, or a range of more than 4096 cells is parsed and stored but not evaluated (counted under excluded_by_construction)");
+    ctx.assume("evaluation cost: a stored formula containing a function whose cost is governed by a numeric argument (SEQUENCE, RANDARRAY, MAKEARRAY, EXPAND, MUNIT, WRAPROWS/COLS, FACT*, COMBIN*, PERMUT*, BESSEL*, SERIESSUM, MULTINOMIAL, BASE, ROMAN, TEXTJOIN), a LAMBDA, the range operator between two expressions (`A1 : XFD1048576` builds its range at run time), or a range of more than 4096 cells is parsed and stored but not evaluated (counted under excluded_by_construction)");
     ctx.assume("format codes: 'rejected' means the format parser returns no section, more than four sections, or only error sections; a code with some valid sections is only required not to panic");
     ctx.note(format!(
         "{} language x locale configurations, {} locales, vocabulary of {} localized words",
